@@ -74,6 +74,10 @@ pub struct InstSpec {
     pub orders: Vec<OrdSpec>,
     pub position: PosSpec,
     pub price: PriceSpec,
+    /// rotates the time-in-force of the instrument's orders through GTC / GTC post-only / IOC /
+    /// FOK / good-until-end-of-day
+    #[serde(default)]
+    pub tif: u8,
 }
 
 #[derive(Debug, Clone, Serialize, Deserialize)]
@@ -114,8 +118,9 @@ fn inst_spec() -> impl Strategy<Value = InstSpec> {
             3 => (1u16..1000, 1u16..1000).prop_map(|(bid, d)| PriceSpec::L1 { bid, ask: bid + d }),
             1 => (1u16..2000).prop_map(PriceSpec::L1OneSided),
         ],
+        0u8..5,
     )
-        .prop_map(|(orders, position, price)| InstSpec { orders, position, price })
+        .prop_map(|(orders, position, price, tif)| InstSpec { orders, position, price, tif })
 }
 
 fn matches(filter: &InstrumentFilter, st: &barter::engine::state::instrument::InstrumentState<barter::engine::state::instrument::data::DefaultInstrumentMarketData>) -> bool {
@@ -153,7 +158,13 @@ fn build_state(case: &ScopeCase) -> (barter_instrument::index::IndexedInstrument
                     price: Decimal::from(100 + k as u32),
                     quantity: Decimal::from(4),
                     kind: OrderKind::Limit,
-                    time_in_force: TimeInForce::GoodUntilCancelled { post_only: false },
+                    time_in_force: [
+                        TimeInForce::GoodUntilCancelled { post_only: false },
+                        TimeInForce::GoodUntilCancelled { post_only: true },
+                        TimeInForce::ImmediateOrCancel,
+                        TimeInForce::FillOrKill,
+                        TimeInForce::GoodUntilEndOfDay,
+                    ][(spec.tif as usize + k) % 5],
                     state: order_state,
                 },
             );
@@ -228,7 +239,7 @@ impl Check for CommandScope {
     fn normalise(mut case: ScopeCase) -> ScopeCase {
         case.defs = crate::props::world::normalise_defs(case.defs, true);
         if case.instruments.is_empty() {
-            case.instruments.push(InstSpec { orders: vec![], position: PosSpec::Flat, price: PriceSpec::Unknown });
+            case.instruments.push(InstSpec { orders: vec![], position: PosSpec::Flat, price: PriceSpec::Unknown, tif: 0 });
         }
         for i in &mut case.instruments {
             i.orders.truncate(5);
@@ -282,7 +293,27 @@ impl Check for CommandScope {
         let resolver = Resolver::new(&indexed);
         let filter = resolver.filter(&case.filter);
         let before = state;
-        let in_scope: Vec<bool> = before.instruments.0.values().map(|st| matches(&filter, st)).collect();
+        // the scope is computed from the case's own selection (not from the filter value the
+        // constructors returned)
+        let n_ex = indexed.exchanges().len();
+        let n_inst = indexed.instruments().len();
+        let in_scope: Vec<bool> = before
+            .instruments
+            .0
+            .values()
+            .map(|st| match &case.filter {
+                crate::props::enginekit::FilterSpec::None => true,
+                crate::props::enginekit::FilterSpec::Exchanges(v) => v.iter().any(|e| ExchangeIndex(*e as usize % (n_ex + 1)) == st.instrument.exchange),
+                crate::props::enginekit::FilterSpec::Instruments(v) => v.iter().any(|i| InstrumentIndex(*i as usize % (n_inst + 1)) == st.key),
+                crate::props::enginekit::FilterSpec::Underlyings(v) => v.iter().any(|i| {
+                    let u = &indexed.instruments()[*i as usize % n_inst].value.underlying;
+                    u.base == st.instrument.underlying.base && u.quote == st.instrument.underlying.quote
+                }),
+            })
+            .collect();
+        if in_scope != before.instruments.0.values().map(|st| matches(&filter, st)).collect::<Vec<bool>>() {
+            bad!("filter-constructor", "the filter built for selection {:?} is {filter:?}: it selects other instruments than the selection names", case.filter);
+        }
         let n_match = in_scope.iter().filter(|b| **b).count();
 
         // every filtered accessor yields exactly the matching instruments
@@ -494,6 +525,7 @@ impl Check for CommandScope {
         rep.class(if case.close_positions { "close_positions" } else { "cancel_orders" });
         rep.class_if(strict_subset, "filter_matches_strict_subset");
         rep.class_if(n_match == 0, "filter_matches_nothing");
+        rep.class_if(matches!(&case.filter, crate::props::enginekit::FilterSpec::Exchanges(v) | crate::props::enginekit::FilterSpec::Instruments(v) | crate::props::enginekit::FilterSpec::Underlyings(v) if v.is_empty()), "empty_selection");
         rep.class_if(both_kinds_in_one, "cancellable_and_cancel_in_flight_together");
         rep.class_if(pos_with_and_without_price.0 && pos_with_and_without_price.1, "position_with_and_without_price");
         rep.nontrivial = strict_subset && (both_kinds_in_one || (pos_with_and_without_price.0 && pos_with_and_without_price.1));
@@ -502,7 +534,7 @@ impl Check for CommandScope {
 }
 
 pub fn run(ctx: &mut Ctx) {
-    ctx.rule = "command_scope: 2..3 exchanges, 3..7 instruments (spot and perpetual on shared underlyings), per instrument 0..4 orders in {open-in-flight, open, partially filled open, cancel-in-flight with/without open data}, flat/long/short position, price unknown / last trade / two-sided L1 / one-sided L1; filter in {none, exchange subsets, instrument subsets, underlying subsets} incl. keys absent from the state; command CancelOrders (issued twice) or ClosePositions through Engine::process with DefaultStrategy on healthy links. non-trivial = filter matches a strict non-empty subset AND (a matching instrument holds both a cancellable and a cancel-in-flight order, or matching positions with and without a price exist); distinct by hash of the case.".into();
+    ctx.rule = "command_scope: 2..3 exchanges, 3..7 instruments (spot and perpetual on shared underlyings), per instrument 0..4 orders in {open-in-flight, open, partially filled open, cancel-in-flight with/without open data} with time in force rotating through GTC / post-only / IOC / FOK / end-of-day, flat/long/short position, price unknown / last trade / two-sided L1 / one-sided L1; filter in {none, exchange subsets, instrument subsets, underlying subsets} incl. keys absent from the state and empty selections (built through the public constructors: they select nothing); command CancelOrders (issued twice) or ClosePositions through Engine::process with DefaultStrategy on healthy links. non-trivial = filter matches a strict non-empty subset AND (a matching instrument holds both a cancellable and a cancel-in-flight order, or matching positions with and without a price exist); distinct by hash of the case.".into();
     ctx.assumptions = vec!["an instrument's market price is what InstrumentDataState::price() reports (documented: volume-weighted mid of a two-sided L1, else last traded price)".into()];
     ctx.run_regressions::<CommandScope>();
     ctx.run::<CommandScope>(ctx.tier.pick(60_000, 1_000_000));
